@@ -15,6 +15,7 @@ import (
 	"verif/internal/explore"
 	"verif/internal/hand"
 	"verif/internal/pots"
+	"verif/internal/seats"
 )
 
 type checkFn func(rep *explore.Report, tier string)
@@ -30,8 +31,12 @@ var checks = map[string]checkFn{
 	"C13": hand.RunC13,
 	"C14": hand.RunC14,
 	"C15": hand.RunC15,
-	"C16": pots.RunC16,
-	"C02": pots.RunC02,
+	"C10": hand.RunC10,
+	"C08": seats.RunC08,
+	"C17": seats.RunC17,
+	"C18": seats.RunC18,
+	"C16": func(rep *explore.Report, tier string) { pots.RunC16(rep, tier); hand.RunC16InPlay(rep, tier) },
+	"C02": func(rep *explore.Report, tier string) { pots.RunC02(rep, tier); hand.RunC02InPlay(rep, tier) },
 }
 
 var replayers = map[string]func(v *explore.Violation) (bool, string){
@@ -39,6 +44,9 @@ var replayers = map[string]func(v *explore.Violation) (bool, string){
 	"hand":         hand.ReplayViolation,
 	"hand-shuffle": hand.ReplayShuffle,
 	"pots":         pots.Replay,
+	"hand-c10":     hand.ReplayC10,
+	"seats":        seats.Replay,
+	"seats-conc":   seats.ReplayConcurrent,
 }
 
 func main() {
